@@ -169,6 +169,16 @@ same_index_range(const Geo& a, const Geo& b)
 }
 
 static std::string
+spec_str(const GeoSpec& s)
+{
+  std::ostringstream o;
+  o << "N=" << s.N << " R=" << s.R << " span=" << s.span << " mash=" << s.mash << " ntang=" << s.ntang << " arc=" << s.arc
+    << " tof=" << s.tof_bins << " tilt=" << s.tilt << " vx=" << s.vx << " vy=" << s.vy << " nx=" << s.nx << " ny=" << s.ny << " m=" << s.m
+    << " extra=" << s.extra_lo << "," << s.extra_hi << " minz=" << s.minz << " originz=" << s.origin_planes << " originx=" << s.origin_x;
+  return o.str();
+}
+
+static std::string
 bin_str(const Bin& b)
 {
   std::ostringstream s;
@@ -392,7 +402,7 @@ oracle_row(const Geo& g, const MatrixCfg& c, const char* mode, const Bin& b, con
 {
   ++oracle_checks;
   std::ostringstream ctx;
-  ctx << where << " flags=" << c.flags << " mode=" << mode << " rays=" << c.ntl << " cylFOV=" << c.restrict_fov << " geo=[" << g.tokens
+  ctx << where << " flags=" << c.flags << " mode=" << mode << " rays=" << c.ntl << " cylFOV=" << c.restrict_fov << " geo=[" << spec_str(g.sp)
       << "] bin=" << bin_str(b);
   if (!same_coords(r.bin, b))
     {
